@@ -6,6 +6,6 @@ STREAMS = [mphys.stream_mux_demux, aero_streams.stream_system]
 ORACLES = [c19.oracle_composition, c19.oracle_mphys, c19.oracle_mixed_handedness]
 UNPROVED = ["far surface: each segment / wake leg of the far surface induces at most 1 / (2 pi distance) (C19_far_surface_*: proved; the wake leg bound is in the PERPENDICULAR distance, which is why the oracle places the far surface outside the wake plane); the effect on the solved coefficients is validated by the oracle (1e2 .. 1e6 m)",
             "that splitting a surface yields the same rings (shared cut column) is checked end to end by the oracle; the theorem covers the re-indexing step",
-            "the isomorphism of the MPhys wrapper wiring with AeroPoint is validated by running both (oracle), not by a theorem on connection graphs"]
+            "the isomorphism of the MPhys wrapper wiring with AeroPoint is a theorem on the two connection graphs of the canonical models (C19_mphys_wiring_is_aeropoint_wiring, by computation; the graphs are regenerated from the live problems on every run); for other surface lists it is validated by running both (oracle)"]
 ASSUMPTIONS = ["CM is normalised by the MAC of the first listed surface (documented): permutation pairs compare forces, CL, CD and per-surface coefficients",
                "wave drag is per surface by construction and is excluded from the split pairs"]
